@@ -68,10 +68,10 @@ PROPS['C12'] = {
     'assumptions': [],
 }
 PROPS['C16'] = {
-    'level': 'proof', 'verus': ['bus'], 'trusted_base': _BUS_TB, 'design_ref': 'DESIGN.md 5.16',
+    'level': 'proof', 'verus': ['bus', 'core_step', 'codecache'], 'trusted_base': _BUS_TB, 'design_ref': 'DESIGN.md 5.16',
     'technique': 'Verus loop invariant on the DMA catch-up loop of MemoryAreas::run_clock_cycles + write contract for 0xFF46; batching lemma on the progress counter',
     'level_text': 'The 0xFF46 arm of memory_write_byte arms Some{source = XX00, offset 0}; the catch-up loop is proved (all pages, all batch sizes, no bound) to copy bytes [offset, min(160, offset + n/4)) in ascending order, each read through the normal bus at that time, into OAM only; everything else is unchanged; completion after 160 machine cycles and restart follow from the contract; lemma_dma_batching proves split-independence of the progress.',
-    'level_note': 'P1 bits 6-7 and STAT bit 7 of a source byte taken from page 0xFF are outside the bus specification.',
+    'level_note': 'P1 bits 6-7 and STAT bit 7 of a source byte taken from page 0xFF are outside the bus specification. "One byte per machine cycle" is in CPU time: that every step (instruction, block, halted or stopped step) hands its machine cycles to MemoryAreas::run_clock_cycles, which contains the DMA engine, is the contract of Core::update / run_interp / run_code_block (units core_step, codecache; shared with C09) and is counted here too.',
     'assumptions': [],
 }
 
